@@ -77,24 +77,43 @@ def construct(cls, a):
         return Parent(id="p", location=SingleInterval(0, a[0], S(a[3])),
                       sequence=Sequence("A" * a[1], Alphabet.NT_STRICT) if a[1] >= 0 else None,
                       strand=S(a[2]) if a[2] else None)
+    if cls == "CODON":
+        from inscripta.biocantor.gene.codon import Codon
+
+        c = Codon("".join(a[0]))
+        # a constructed codon is usable: it knows its three letters and answers the table questions
+        if len(str(c)) != 3 or str(c) != "".join(a[0]).upper():
+            raise AttributeError("half-initialised Codon")
+        c.translate(strict=False), c.is_stop_codon, c.is_strict_codon
+        return c
     raise MachineryError("unknown class " + cls)
 
 
 def _ctor_events(cases):
     setup_repo_import()
+    from inscripta.biocantor.gene.codon import Codon
+    from inscripta.biocantor.location.location_impl import SingleInterval
+    from inscripta.biocantor.location.strand import Strand
+
     ev = []
     for (cls, kind, a) in cases:
-        o = E.outcome(lambda: construct(cls, a) and 1)
-        if o[0] == "v":
-            o = ["v", 1]
-        ev.append(["ctor", cls, kind, a, o])
+        def once():
+            o = E.outcome(lambda: construct(cls, a) and 1)
+            return ["v", 1] if o[0] == "v" else o
+
+        o = once()
+        again = [once()]
+        # something unrelated and valid in between, then the same construction a third time
+        SingleInterval(1, 4, Strand.PLUS), Codon("ATG")
+        again.append(once())
+        ev.append(["ctor", cls, kind, a, o, again])
     return ev
 
 
 def _random_cases(rnd, n):
     out = []
     for _ in range(n):
-        cls = rnd.choice(["SI", "CI", "CDS", "TX", "FEAT", "VAR", "VCOLL", "COLL", "GENE", "SEQ", "PARENT"])
+        cls = rnd.choice(["SI", "CI", "CDS", "TX", "FEAT", "VAR", "VCOLL", "COLL", "GENE", "SEQ", "PARENT", "CODON"])
         r = lambda lo=-1, hi=12: rnd.randrange(lo, hi)  # noqa: E731
         st = rnd.choice("+-.")
         sl = rnd.choice([-1, -1, 8, 10])
@@ -131,6 +150,8 @@ def _random_cases(rnd, n):
             if a[1] > a[0]:
                 a[1] = a[0]
             a[2] = a[2] and a[0] >= 2
+        elif cls == "CODON":
+            a = [[rnd.choice("ACGTUNRYacgtnw-X*. ") for _ in range(rnd.choice([3, 3, 3, 3, 2, 4, 0]))]]
         elif cls == "SEQ":
             al = rnd.choice(["NT_STRICT", "NT_EXTENDED", "NT_STRICT_GAPPED", "NT_STRICT_UNKNOWN"])
             a = [[rnd.choice("ACGTacgtNRn-!x") for _ in range(rnd.randrange(0, 6))], al]
